@@ -145,10 +145,11 @@ end Ellipsoid
 /-! ### `ConvexSpheropolyhedron.is_inside` -/
 namespace Sphero
 
-/-- `extruded_vertices = base_vertices + self.radius * normal`; the prism is
-    `ConvexPolyhedron([*base_vertices, *extruded_vertices])` (its equations come from Qhull) -/
+/-- `inner_vertices = base_vertices - self.radius * normal`,
+    `extruded_vertices = base_vertices + self.radius * normal`; the prism is
+    `ConvexPolyhedron([*inner_vertices, *extruded_vertices])` (its equations come from Qhull) -/
 def prismVertices (r : α) (normal : V3 α) (base : List (V3 α)) : List (V3 α) :=
-  base ++ base.map fun v => v + V3.smul r normal
+  (base.map fun v => v - V3.smul r normal) ++ base.map fun v => v + V3.smul r normal
 
 /-- cylinder test of `check_face` for the edge starting at `s` and ending at `e`
     (`e = np.roll(face_points, -1)[i]`):
